@@ -33,7 +33,7 @@ import traceback
 from . import drive as D
 from . import refcodec as R
 
-EVENT_POOL = ['ev0', 'ev1', 'ev2', 'my event', 'é!', 'unhandled_x']
+EVENT_POOL = ['ev0', 'ev1', 'ev2', 'my event', 'é!', 'unhandled_x', 'ev_g']
 CLASS_EVENTS = ['ev0', 'ev1', 'ev2']
 
 
@@ -54,6 +54,7 @@ def default_config(**kw):
         'namespaces_opt': None,      # None | list | '*'
         'style': {},                 # ns -> 'func' | 'catchall' | 'class'
         'global_catchall': False,    # handlers registered under '*' ns
+        'global_events': [],         # events registered under '*' ns only
         'coroutines': True,          # async drive: coroutine handlers
         'connect_script': {},        # ns -> list of behaviours
         'returns': {},               # token -> handler return value
@@ -157,6 +158,10 @@ class Runner:
                 self.sio.register_namespace(self._mk_class(ns))
             elif style == 'none':
                 pass
+        for gev in cfg.get('global_events') or []:
+            def g_ev(ns, sid, *args, _ev=gev):
+                return runner._invoke('event', ns, _ev, sid, args, 'global')
+            d.on(gev, g_ev, '*', co)
         if cfg.get('global_catchall'):
             def g_connect(ns, sid, environ, auth=None):
                 return runner._invoke('connect', ns, 'connect', sid,
